@@ -281,6 +281,15 @@ def cases_pairs():
                 expect = "refuse" if item == quote else "accept"
             cases.append({"group": "consistency", "format": "delimited", "props": [["Quote character", quote], ["Item delimiter", str(ord(item))]], "expect": expect, "what": "item delimiter vs quote character"})
             cases.append({"group": "consistency", "format": "delimited", "props": [["Item delimiter", str(ord(item))], ["Quote character", quote]], "expect": expect, "what": "item delimiter vs quote character (other order)"})
+    # the escape character next to every quote character, declared before and behind it: its set does not depend on the quote character
+    for quote in QUOTE_SET:
+        for escape in dict.fromkeys(('"', "\\", quote, "'", "#")):
+            expect = "accept" if escape == '"' else ("either" if escape == "\\" else "refuse")
+            for order in (0, 1):
+                props = [["Quote character", quote], ["Escape character", escape]]
+                if order:
+                    props.reverse()
+                cases.append({"group": "consistency", "format": "delimited", "props": [["Item delimiter", "|"]] + props, "expect": expect, "what": "escape character next to quote character" + (" (other order)" if order else "")})
     for item_name, item in (("lf", "\n"), ("cr", "\r")):
         for line in ("lf", "cr", "crlf", "any"):
             line_text = {"lf": "\n", "cr": "\r"}.get(line)
